@@ -211,7 +211,7 @@ def unit_assert_runnable() -> Dict[str, Any]:
 
 WORKER = r'''
 import sys, json, random, struct, resource, tempfile, time, importlib
-sys.path[:0] = ['/verif', '/repo']
+sys.path[:0] = ['/verif', __import__('os').environ.get('VERIF_REPO', '/repo')]
 resource.setrlimit(resource.RLIMIT_AS, (3 << 30, 3 << 30))
 from pathlib import Path
 W = importlib.import_module('flipjump.fjm.fjm_writer'); R = importlib.import_module('flipjump.fjm.fjm_reader')
@@ -326,7 +326,7 @@ def bounded(rep: Report, tier: str, seed: int) -> None:
     import json
     import os
 
-    env = dict(os.environ, PYTHONPATH='/verif:/repo', PYTHONDONTWRITEBYTECODE='1')
+    env = dict(os.environ, PYTHONPATH='/verif:' + os.environ.get('VERIF_REPO', '/repo'), PYTHONDONTWRITEBYTECODE='1')
     p = subprocess.run([sys.executable, '-c', WORKER, tier, str(seed)], capture_output=True, text=True, timeout=3000, env=env)
     line = [l for l in p.stdout.splitlines() if l.startswith('@@RESULT@@')]
     if not line:
